@@ -449,10 +449,23 @@ impl TestCaseConfig {
         if let Some(ref wait) = self.wait {
             let duration = humantime::format_duration(wait.timeout).to_string();
             if let Some(ref path) = wait.path {
+                // anything but a plain path is written as JSON string, which
+                // is a valid double quoted YAML scalar
+                let path = path.to_string_lossy();
+                let is_plain = !path.is_empty()
+                    && !path.starts_with('-')
+                    && !path.eq_ignore_ascii_case("null")
+                    && path
+                        .chars()
+                        .all(|ch| ch.is_ascii_alphanumeric() || "_./-".contains(ch));
+                let path = if is_plain {
+                    path.to_string()
+                } else {
+                    serde_json::to_string(&path).unwrap_or_else(|_| format!("\"{}\"", path))
+                };
                 output.push(format!(
                     "wait: {{timeout: {}, path: {}}}",
-                    duration,
-                    path.to_string_lossy(),
+                    duration, path,
                 ))
             } else {
                 output.push(format!("wait: {}", duration))
